@@ -25,7 +25,8 @@ Definition run (st : wst) (cs : list cmd) : wst := fold_left step cs st.
 (* a declaration as the printer emits it: commands, whether it is a module docstring *)
 Record decl := { d_cmds : list cmd; d_doc : bool }.
 
-(* format_program: separators between declarations, then the final newline *)
+(* format_program: separators between declarations (the extra final newline is gone); Formatter::format then
+   trims the newlines a trailing `match` leaves behind, down to exactly one *)
 Fixpoint program_cmds_from (prev_doc : bool) (ds : list decl) : list cmd :=
   match ds with
   | [] => []
@@ -33,10 +34,21 @@ Fixpoint program_cmds_from (prev_doc : bool) (ds : list decl) : list cmd :=
   end.
 Definition program_cmds (ds : list decl) : list cmd :=
   match ds with
-  | [] => [NL]
-  | d :: rest => d_cmds d ++ program_cmds_from (d_doc d) rest ++ [NL]
+  | [] => []
+  | d :: rest => d_cmds d ++ program_cmds_from (d_doc d) rest
   end.
-Definition fmt_text (ds : list decl) : list Z := out (run w0 (program_cmds ds)).
+(* `while output.ends_with("\n\n") { output.pop(); }`, on the reversed text *)
+Fixpoint strip (r : list Z) : list Z :=
+  match r with
+  | a :: r' => if (a =? 10) && (match r' with b :: _ => b =? 10 | [] => false end) then strip r' else r
+  | [] => []
+  end.
+Definition trim (t : list Z) : list Z := rev (strip (rev t)).
+Definition raw_text (ds : list decl) : list Z := out (run w0 (program_cmds ds)).
+Definition fmt_text (ds : list decl) : list Z := trim (raw_text ds).
+
+(* exactly one final newline: the text ends with a non-newline character followed by one newline *)
+Definition ends_one (t : list Z) : Prop := exists pre c, t = pre ++ [c; 10] /\ c <> 10.
 
 (* every format_declaration arm finishes with newline() possibly followed by dedent()s *)
 Definition only_dedents (cs : list cmd) : Prop := Forall (fun c => c = DE) cs.
